@@ -1082,23 +1082,21 @@ where
         for packet in packets {
             match &packet {
                 GenericStorePacket::V3_1_1Publish(p) => {
-                    // Add to appropriate QoS tracking set
-                    match p.qos() {
-                        Qos::AtLeastOnce => {
-                            self.pid_puback.insert(p.packet_id().unwrap());
-                        }
-                        Qos::ExactlyOnce => {
-                            self.pid_pubrec.insert(p.packet_id().unwrap());
-                        }
-                        _ => {
-                            // QoS 0 shouldn't be in store, but handle gracefully
-                            warn!("QoS 0 packet found in store, skipping");
-                            continue;
-                        }
+                    let qos = p.qos();
+                    if qos == Qos::AtMostOnce {
+                        // QoS 0 shouldn't be in store, but handle gracefully
+                        warn!("QoS 0 packet found in store, skipping");
+                        continue;
                     }
                     // Register packet ID and add to store
                     let packet_id = p.packet_id().unwrap();
                     if self.pid_man.register_id(packet_id).is_ok() {
+                        // Add to appropriate QoS tracking set (only for packets that are restored)
+                        if qos == Qos::AtLeastOnce {
+                            self.pid_puback.insert(packet_id);
+                        } else {
+                            self.pid_pubrec.insert(packet_id);
+                        }
                         if let Err(_e) = self.store.add(packet) {
                             error!("Failed to add packet to store: {:?}", _e);
                         }
@@ -1107,23 +1105,21 @@ where
                     }
                 }
                 GenericStorePacket::V5_0Publish(p) => {
-                    // Add to appropriate QoS tracking set
-                    match p.qos() {
-                        Qos::AtLeastOnce => {
-                            self.pid_puback.insert(p.packet_id().unwrap());
-                        }
-                        Qos::ExactlyOnce => {
-                            self.pid_pubrec.insert(p.packet_id().unwrap());
-                        }
-                        _ => {
-                            // QoS 0 shouldn't be in store, but handle gracefully
-                            warn!("QoS 0 packet found in store, skipping");
-                            continue;
-                        }
+                    let qos = p.qos();
+                    if qos == Qos::AtMostOnce {
+                        // QoS 0 shouldn't be in store, but handle gracefully
+                        warn!("QoS 0 packet found in store, skipping");
+                        continue;
                     }
                     // Register packet ID and add to store
                     let packet_id = p.packet_id().unwrap();
                     if self.pid_man.register_id(packet_id).is_ok() {
+                        // Add to appropriate QoS tracking set (only for packets that are restored)
+                        if qos == Qos::AtLeastOnce {
+                            self.pid_puback.insert(packet_id);
+                        } else {
+                            self.pid_pubrec.insert(packet_id);
+                        }
                         if let Err(_e) = self.store.add(packet) {
                             error!("Failed to add packet to store: {:?}", _e);
                         }
@@ -1132,11 +1128,11 @@ where
                     }
                 }
                 GenericStorePacket::V3_1_1Pubrel(p) => {
-                    // Pubrel packets expect PUBCOMP response
-                    self.pid_pubcomp.insert(p.packet_id());
                     // Register packet ID and add to store
                     let packet_id = p.packet_id();
                     if self.pid_man.register_id(packet_id).is_ok() {
+                        // Pubrel packets expect PUBCOMP response (only for packets that are restored)
+                        self.pid_pubcomp.insert(packet_id);
                         if let Err(_e) = self.store.add(packet) {
                             error!("Failed to add packet to store: {:?}", _e);
                         }
@@ -1145,11 +1141,11 @@ where
                     }
                 }
                 GenericStorePacket::V5_0Pubrel(p) => {
-                    // Pubrel packets expect PUBCOMP response
-                    self.pid_pubcomp.insert(p.packet_id());
                     // Register packet ID and add to store
                     let packet_id = p.packet_id();
                     if self.pid_man.register_id(packet_id).is_ok() {
+                        // Pubrel packets expect PUBCOMP response (only for packets that are restored)
+                        self.pid_pubcomp.insert(packet_id);
                         if let Err(_e) = self.store.add(packet) {
                             error!("Failed to add packet to store: {:?}", _e);
                         }
